@@ -22,7 +22,7 @@ def _c09_extra(events):
 
 reg("C09", "loaders fail cleanly on malformed or truncated files",
     parts=[dict(harness="c09_loaders", cases=dict(quick=296, thorough=2368), timeout_case=1800, chunk=1)],
-    rule="seed files = one generated instance (quick; 4 in thorough) of each of the 30 classes of the C08 registry written by "
+    rule="seed files = one canonical generated instance (generator seed fixed, independent of VERIF_SEED; thorough: + 3 instances drawn from VERIF_SEED) of each of the 30 classes of the C08 registry written by "
          "dumpToNF, + Zycor / IfpEn / Bmp grids written by the library, + a hand-written F2G grid, + CSV files in 3 CSVformat "
          "variants, each <= 4 KiB (8 KiB thorough). Mutants of a seed file, enumerated in a fixed order and dealt to 8 (16) "
          "cases: EVERY prefix; every token x {delete, duplicate, -1, 0, 1, 2147483647, 1e308, 99999999999, NA, text, empty "
@@ -33,7 +33,7 @@ reg("C09", "loaders fail cleanly on malformed or truncated files",
          "10 s CPU limit, watchdog, one re-run before a hang is declared); a returned object goes through basic queries, the "
          "C07 Db consistency rules, save and reload. distinct = (seed kind, instance, batch)",
     level="fault_enumeration",
-    require=dict(distinct=100, oracles=dict(quick={"loader-survives": 60000}, thorough={"loader-survives": 500000})),
+    require=dict(distinct=100, oracles=dict(quick={"loader-survives": 40000}, thorough={"loader-survives": 500000})),
     evidence_extra=_c09_extra,
     assumptions=["a child that answers (clean failure / object / exception) within the limits did not corrupt memory in a way "
                  "ASan's red zones and quarantine can see; far out-of-bounds and intra-object overflows are not detected",
